@@ -394,6 +394,47 @@ func runC21(r *Report) {
 					r.ObSite("R21d", Site{fn, b, i, in}, "selector-index-recorded-in-range", lo && hi, "a selector result recorded for later indexing must be within range; guards: "+GuardStrings(GuardDNF(b, 4)))
 				}
 			}
+			// an unexported helper may hand the clamped index back to its caller, which indexes the same candidates
+			if !isExportedName(fn.Name()) {
+				for _, b := range fn.Blocks {
+					ret, ok := b.Instrs[len(b.Instrs)-1].(*ssa.Return)
+					if !ok || len(ret.Results) != 1 || !isIntType(ret.Results[0].Type()) || !DependsOn(ret.Results[0], func(v ssa.Value) bool { return v == ssa.Value(sel) }) {
+						continue
+					}
+					used++
+					r.ObSite("R21d", SiteOf(ret), "selector-index-clamped", selectorClampedAt(ret.Results[0], b, sel), "a node-selector result handed back as an index must fall back to 0 (the primary) when it is negative or not below the number of candidates")
+					// the callers index the candidates they passed
+					cand := -1
+					if len(sel.Call.Args) == 2 {
+						for k, prm := range fn.Params {
+							if ssa.Value(prm) == sel.Call.Args[1] {
+								cand = k
+							}
+						}
+					}
+					for _, caller := range p.ModuleFuncs() {
+						for _, cs := range Sites(caller, func(in ssa.Instruction) bool {
+							c, ok := in.(*ssa.Call)
+							return ok && c.Call.StaticCallee() == fn
+						}) {
+							call := cs.Instr.(*ssa.Call)
+							okUse := cand >= 0
+							nUse := 0
+							for _, u := range *call.Referrers() {
+								ia, isia := u.(*ssa.IndexAddr)
+								if !isia || ia.Index != ssa.Value(call) {
+									continue
+								}
+								nUse++
+								if cand < 0 || !Same(ia.X, call.Call.Args[cand]) {
+									okUse = false
+								}
+							}
+							r.ObSite("R21d", cs, "helper-index-used-on-its-candidates", okUse && nUse > 0, "the index a selector helper returns is applied to the very candidate list the helper was given")
+						}
+					}
+				}
+			}
 			r.ObSite("R21d", s, "selector-result-used", used > 0, "selector result is used as an index")
 		}
 	}
@@ -410,8 +451,8 @@ func selectorGuards(dnf [][]Guard, sel ssa.Value) (lo, hi bool) {
 			if !ok || Strip(x) != sel {
 				continue
 			}
-			if k, isc := ConstInt(y); isc && k == 0 && op == token.GEQ {
-				l = true
+			if k, isc := ConstInt(y); isc && ((op == token.GEQ && k >= 0) || (op == token.GTR && k >= -1)) {
+				l = true // sel >= 0, or the stronger sel > 0 (`if sel <= 0 || ... { primary }`)
 			}
 			if op == token.LSS && strings.Contains(Desc(y), "builtin.len(") {
 				h = true
@@ -424,6 +465,11 @@ func selectorGuards(dnf [][]Guard, sel ssa.Value) (lo, hi bool) {
 }
 
 func selectorClamped(ia *ssa.IndexAddr, sel ssa.Value) bool {
+	return selectorClampedAt(ia.Index, ia.Block(), sel)
+}
+
+// selectorClampedAt: the value idx, used in block use, is 0 or the selector result within range.
+func selectorClampedAt(idx ssa.Value, use *ssa.BasicBlock, sel ssa.Value) bool {
 	// the index is a phi of the constant 0 and the selector result (possibly +/- a constant); the
 	// edge carrying the selector result is guarded by 0 <= sel < len
 	var check func(v ssa.Value, at *ssa.BasicBlock, depth int) bool
@@ -468,20 +514,20 @@ func selectorClamped(ia *ssa.IndexAddr, sel ssa.Value) bool {
 			return true
 		case *ssa.BinOp:
 			// 1+rIndex or rIndex-1 under guards at the use site
-			lo, hi := selectorGuards(GuardDNF(ia.Block(), 4), sel)
+			lo, hi := selectorGuards(GuardDNF(use, 4), sel)
 			if lo && hi {
 				return true
 			}
 			return check(x.X, at, depth+1) && check(x.Y, at, depth+1)
 		case *ssa.Call:
 			if v == sel {
-				lo, hi := selectorGuards(GuardDNF(ia.Block(), 4), sel)
+				lo, hi := selectorGuards(GuardDNF(use, 4), sel)
 				return lo && hi
 			}
 		}
 		return false
 	}
-	return check(ia.Index, ia.Block(), 0)
+	return check(idx, use, 0)
 }
 
 // checkAllPredicate: the function answers true only if the predicate is set and no call of it
